@@ -370,3 +370,6 @@ PROPS["C09"]["must_reach"]["quick"] = PROPS["C09"]["must_reach"]["quick"] + ["po
 PROPS["C15"]["must_reach"]["quick"] = PROPS["C15"]["must_reach"]["quick"] + ["bg_worker_compaction_refused_busy", "tick"]
 PROPS["C10"]["must_reach"]["quick"] = PROPS["C10"]["must_reach"]["quick"] + ["race_run_cold_start"]
 PROPS["C01"]["must_reach"]["quick"] = PROPS["C01"]["must_reach"]["quick"] + ["bucket_with_successors_emptied"]
+# wave 9
+PROPS["C08"]["must_reach"]["quick"] = PROPS["C08"]["must_reach"]["quick"] + ["raw-garbage"]
+PROPS["C13"]["must_reach"]["quick"] = PROPS["C13"]["must_reach"]["quick"] + ["start_with_leftover_lock_names"]
